@@ -4316,7 +4316,11 @@ def check_onepoint(goal, ctx):
         raise VeriTException("onepoint", "unexpected result")
 
     # For each variable with one value, check for corresponding equality
-    # in the body of lhs.
+    # in the body of lhs: the equation v = t (or t = v), where t is the
+    # value of v in the context.
+    def is_eq_of(tm, v, t):
+        return tm.is_equals() and ((tm.lhs == v and tm.rhs == t) or (tm.rhs == v and tm.lhs == t))
+
     if is_forall:
         # body must be in implies form, with each equation in the premise
         if l_bd.is_implies():
@@ -4325,48 +4329,23 @@ def check_onepoint(goal, ctx):
             for assm in assms:
                 conjs.extend(assm.strip_conj())
             for v, t in one_val_var.items():
-                found = False
-                for i, conj in enumerate(conjs):
-                    if conj.is_equals() and conj.lhs == v:
-                        found = True
-                        break
-                    if conj.is_equals() and conj.rhs == v:
-                        found = True
-                        break
-                if concl.is_not() and concl.arg.is_equals() and concl.arg.lhs == v:
+                found = any(is_eq_of(conj, v, t) for conj in conjs)
+                if concl.is_not() and is_eq_of(concl.arg, v, t):
                     found = True
-                    break
-                if concl.is_not() and concl.arg.is_equals() and concl.arg.rhs == v:
-                    found = True
-                    break
                 if not found:
                     raise VeriTException("onepoint", "forall - equation not found")
             return "FORALL-DISJ", l_bd, one_val_var, remain_var
         elif l_bd.is_disj():
             disjs = l_bd.strip_disj()
             for v, t in one_val_var.items():
-                found = False
-                for i, disj in enumerate(disjs):
-                    if disj.is_not() and disj.arg.is_equals() and disj.arg.lhs == v:
-                        found = True
-                        break
-                    if disj.is_not() and disj.arg.is_equals() and disj.arg.rhs == v:
-                        found = True
-                        break
+                found = any(disj.is_not() and is_eq_of(disj.arg, v, t) for disj in disjs)
                 if not found:
                     raise VeriTException("onepoint", "forall - equation not found")
             return "FORALL-DISJ", l_bd, one_val_var, remain_var
         elif l_bd.is_not() and l_bd.arg.is_conj():
             conjs = l_bd.arg.strip_conj()
             for v, t in one_val_var.items():
-                found = False
-                for i, conj in enumerate(conjs):
-                    if conj.is_equals() and conj.lhs == v:
-                        found = True
-                        break
-                    if conj.is_equals() and conj.rhs == v:
-                        found = True
-                        break
+                found = any(is_eq_of(conj, v, t) for conj in conjs)
                 if not found:
                     raise VeriTException("onepoint", "forall - equation not found")
             return "FORALL-DISJ", l_bd, one_val_var, remain_var
@@ -4376,13 +4355,12 @@ def check_onepoint(goal, ctx):
         # body must be in conjunction form, with each equation as a conjunct
         conjs = l_bd.strip_conj()
         for v, t in one_val_var.items():
+            found = False
             for i, conj in enumerate(conjs):
-                if conj.is_equals() and conj.lhs == v:
+                if is_eq_of(conj, v, t):
                     found = True
-                    break
-                if conj.is_equals() and conj.rhs == v:
-                    found = True
-                    conjs[i] = Eq(conj.rhs, conj.lhs)
+                    if conj.lhs != v:
+                        conjs[i] = Eq(conj.rhs, conj.lhs)
                     break
             if not found:
                 raise VeriTException("onepoint", "exists - equation not found")
